@@ -41,3 +41,11 @@ DEPS = {
 def run(ctx):
     for i, (module, fname, old, why) in enumerate(DEPS.get(ctx.prop, []), 1):
         ctx.borrow("%s.D%d" % (ctx.prop, i), why, module, fname, old)
+
+
+def explain(prop):
+    ds = DEPS.get(prop, [])
+    if not ds:
+        return ""
+    return (" Mechanisms of other properties this statement rests on are decided by running the owning property's rule body under this "
+            "property's ids: " + "; ".join("%s.D%d = %s (%s)" % (prop, i, old, why) for i, (_m, _f, old, why) in enumerate(ds, 1)) + ".")
